@@ -358,10 +358,26 @@ def sweep(fx, R):
             if not (isinstance(x, dict) and x.get('k') == 'If'):
                 continue
             c = strip_casts(x['c'])
-            op = c.get('op') if c.get('k') in ('Bin', 'Op') else None
-            if op not in ('!=', '=='):
-                continue
-            sides = (c['l'], c['r']) if c.get('k') == 'Bin' else tuple(c.get('args', [])[:2])
+            fuzzy = None
+            neg = False
+            while c.get('k') == 'Un' and c.get('op') == '!':
+                neg = not neg
+                c = strip_casts(c['e'])
+            if c.get('k') == 'MCall' and c.get('m') in ('isApprox', 'isMuchSmallerThan', 'isApproxToConstant') and c.get('args'):
+                fuzzy = c['m']
+                sides = (c['obj'], c['args'][0])
+                op = '!=' if neg else '=='
+            elif c.get('k') == 'Call' and (c.get('fn') or '').split('<')[0].split('::')[-1] in ('near', 'isApprox', 'almostEqual', 'isNear') and len(c.get('args', [])) >= 2:
+                fuzzy = (c.get('fn') or '').split('<')[0].split('::')[-1]
+                sides = (c['args'][0], c['args'][1])
+                op = '!=' if neg else '=='
+            else:
+                if neg:
+                    continue
+                op = c.get('op') if c.get('k') in ('Bin', 'Op') else None
+                if op not in ('!=', '=='):
+                    continue
+                sides = (c['l'], c['r']) if c.get('k') == 'Bin' else tuple(c.get('args', [])[:2])
             if len(sides) != 2:
                 continue
             key = next((base_member(s_) for s_ in sides if base_member(s_) is not None and base_member(s_).get('cls') == cls), None)
@@ -374,6 +390,12 @@ def sweep(fx, R):
             st_ = stores_in(miss)
             names_ = {bm['name'] for (bm, _) in st_ if bm.get('cls') == cls}
             if key['name'] not in names_ or len(names_) < 2:
+                continue
+            if fuzzy:
+                others_ = sorted(names_ - {key['name']})
+                R.violated('H5', '%s:fuzzy-key:%s' % (f['q'].split('(')[0], key['name']), '`%s` is re-used whenever the argument is %s() to the remembered `%s` (`%s`): that is a tolerance comparison (relative precision '
+                           '1e-5 in float, 1e-12 in double by default), not equality, so a DIFFERENT argument that is merely close - close relative to its own magnitude - is answered with the value computed for the '
+                           'previous one; the result depends on the call made before' % (', '.join(others_), fuzzy, key['name'], pp(x['c'])[:90]), fx.rel(x.get('loc') or f['loc']), 'E-PURE')
                 continue
             for (bm, rhs) in st_:
                 if bm.get('cls') != cls or bm['name'] == key['name']:
